@@ -45,9 +45,22 @@ def simple_run(cid, prog, inputs=(), selectors=(), fuzz=True):
 
 # ---------------------------------------------------------------- running
 
+MODEL_MEM = int(os.environ.get("VERIF_MODEL_MEM_GB", "6")) << 30
+
+
 def _set_limits():
     try:
         resource.setrlimit(resource.RLIMIT_STACK, (resource.RLIM_INFINITY, resource.RLIM_INFINITY))
+    except Exception:
+        pass
+
+
+def _set_limits_model():
+    """the model runs on enormous fuel: a case that allocates without end must die alone (it is
+    then reported as 'crash' = inconclusive for that case) instead of taking the machine with it"""
+    _set_limits()
+    try:
+        resource.setrlimit(resource.RLIMIT_AS, (MODEL_MEM, MODEL_MEM))
     except Exception:
         pass
 
@@ -65,7 +78,8 @@ def _run_binary(binary, lines, timeout, isolate_crash=True):
                 f.write("\n".join(pending) + "\n")
             try:
                 p = subprocess.run([binary, path], stdout=subprocess.PIPE, stderr=subprocess.PIPE,
-                                   timeout=timeout, preexec_fn=_set_limits)
+                                   timeout=timeout,
+                                   preexec_fn=_set_limits_model if binary == JQMODEL else _set_limits)
                 out = p.stdout.decode("ascii", "replace")
                 died = p.returncode != 0
             except subprocess.TimeoutExpired as e:
